@@ -73,3 +73,106 @@ func emitReadSites(t *srcTree) {
 	fmt.Println("]")
 	fmt.Println()
 }
+
+// fileFlagSites (C08): every place that looks at the `-file=` value: selections of the CommonFlags field `FileName` and calls
+// of `TestFile` (directory, enclosing function, what). The C08 model says `-file=F` only decides WHICH types are listed and how
+// the output file is named; how a listed type is generated does not see the flag (so the all-in-one output is the merge of the
+// one-at-a-time outputs): a new use of the flag inside a per-type step (e.g. to narrow the files constants are collected from)
+// shows up here.
+func emitFileFlagSites(t *srcTree) {
+	type site struct{ dir, fn, what string }
+	seen := map[site]bool{}
+	var out []site
+	for _, fn := range t.funcs {
+		name := fn.name
+		if fn.recv != "" {
+			name = "(" + fn.recv + ")." + fn.name
+		}
+		ast.Inspect(fn.decl.Body, func(n ast.Node) bool {
+			var what string
+			switch v := n.(type) {
+			case *ast.SelectorExpr:
+				if v.Sel.Name == "FileName" {
+					what = "FileName"
+				}
+			case *ast.CallExpr:
+				if sel, ok := v.Fun.(*ast.SelectorExpr); ok && sel.Sel.Name == "TestFile" {
+					what = "TestFile"
+				}
+			}
+			if what != "" {
+				s := site{filepath.ToSlash(filepath.Dir(fn.f.rel)), name, what}
+				if !seen[s] {
+					seen[s] = true
+					out = append(out, s)
+				}
+			}
+			return true
+		})
+	}
+	sort.SliceStable(out, func(i, j int) bool {
+		if out[i].dir != out[j].dir {
+			return out[i].dir < out[j].dir
+		}
+		if out[i].fn != out[j].fn {
+			return out[i].fn < out[j].fn
+		}
+		return out[i].what < out[j].what
+	})
+	fmt.Println("/-- (directory, enclosing function, FileName | TestFile) of every use of the `-file=` value -/")
+	fmt.Println("def fileFlagSites : List (String × String × String) := [")
+	for i, s := range out {
+		sep := ","
+		if i == len(out)-1 {
+			sep = ""
+		}
+		fmt.Printf("  (%s, %s, %s)%s\n", leanStr(s.dir), leanStr(s.fn), leanStr(s.what), sep)
+	}
+	fmt.Println("]")
+	fmt.Println()
+}
+
+// sortSites (C07/C08): every call into package sort / slices.Sort* (directory, enclosing function, callee). The models process
+// the types of an all-in-one run in DECLARATION order (with -getset the order decides which accessor interfaces an embedder
+// sees) and keep every other list in source order unless one of these sites sorts it: a new sort shows up here.
+func emitSortSites(t *srcTree) {
+	type site struct{ dir, fn, callee string }
+	var out []site
+	for _, fn := range t.funcs {
+		name := fn.name
+		if fn.recv != "" {
+			name = "(" + fn.recv + ")." + fn.name
+		}
+		ast.Inspect(fn.decl.Body, func(n ast.Node) bool {
+			call, ok := n.(*ast.CallExpr)
+			if !ok {
+				return true
+			}
+			path, cn, q := fn.f.calleeOf(call)
+			if q && (path == "sort" || (path == "slices" && len(cn) >= 4 && cn[:4] == "Sort")) {
+				out = append(out, site{filepath.ToSlash(filepath.Dir(fn.f.rel)), name, filepath.Base(path) + "." + cn})
+			}
+			return true
+		})
+	}
+	sort.SliceStable(out, func(i, j int) bool {
+		if out[i].dir != out[j].dir {
+			return out[i].dir < out[j].dir
+		}
+		if out[i].fn != out[j].fn {
+			return out[i].fn < out[j].fn
+		}
+		return out[i].callee < out[j].callee
+	})
+	fmt.Println("/-- (directory, enclosing function, callee) of every call into package sort -/")
+	fmt.Println("def sortSites : List (String × String × String) := [")
+	for i, s := range out {
+		sep := ","
+		if i == len(out)-1 {
+			sep = ""
+		}
+		fmt.Printf("  (%s, %s, %s)%s\n", leanStr(s.dir), leanStr(s.fn), leanStr(s.callee), sep)
+	}
+	fmt.Println("]")
+	fmt.Println()
+}
